@@ -75,7 +75,7 @@ PLAN = {
         ("shared", 2, 1, None, MAIN_ARGS + [DOTTED]),
         ("shared", 2, 2, 2, MAIN_ARGS + [DOTTED]),
         ("shared", 3, 1, 2, MAIN_ARGS),
-        ("globals", 2, 1, None, MAIN_ARGS),
+        ("globals", 2, 1, None, [1]),
     ],
     "thorough": [
         ("shared", 2, 1, None, MAIN_ARGS + [DOTTED]),
@@ -138,7 +138,34 @@ class Harness:
         md = vars(self.mod)
         self.fn = md["gensym"]
         self.watch = lambda code, g: g is md
-        self.shared = lambda: md.get(COUNTER)
+        # "counter reset before each execution", generalised so that a refactored gensym keeps being
+        # checkable: every data global of the module (not a module, function, class or lock) is re-bound to a
+        # deep copy of its import-time value, function attributes likewise; globals that appear later are deleted
+        import copy
+        import types
+        self._deepcopy = copy.deepcopy
+        skip_types = (types.ModuleType, types.FunctionType, types.BuiltinFunctionType, type, sched.SchedLock)
+        self.pristine = {}
+        for k, v in md.items():
+            if k.startswith("__") or isinstance(v, skip_types):
+                continue
+            try:
+                self.pristine[k] = copy.deepcopy(v)
+            except Exception:
+                pass
+        self.import_names = set(md)
+        self.fn_attrs = [(f, copy.deepcopy(dict(f.__dict__))) for f in md.values()
+                         if isinstance(f, types.FunctionType) and f.__globals__ is md]
+        self.late_names = set()
+        self.state_names = [COUNTER] if COUNTER in md else []
+
+        def shared():                              # the shared state shown in configurations
+            out = []
+            for k in self.state_names:
+                v = md.get(k)
+                out.append(v if isinstance(v, (int, str, type(None))) else repr(v)[:80])
+            return out[0] if len(out) == 1 else tuple(out)
+        self.shared = shared
         # warm-up: every argument twice, sequentially on this thread (lazy imports, caches)
         for a in ARGS:
             self._call_alone(a)
@@ -175,9 +202,18 @@ class Harness:
             o = ex.results[0][1][0]
             self.seq_raises.append(None if o[0] == "ok" else o[1])
         self.lock_names = sorted(k for k, v in md.items() if isinstance(v, sched.SchedLock))
-        self.points = {"shared": sched.Points("shared", codes, self.lock_names),
+        # globals bound to a mutable object (a lock, a list, an iterator ...) are shared mutable state too,
+        # even if no function rebinds the name: a load of such a name is a scheduling point
+        mutable = [k for k, v in self.pristine.items()
+                   if not isinstance(v, (int, float, str, bool, tuple, bytes, frozenset, type(None)))]
+        self.points = {"shared": sched.Points("shared", codes, self.lock_names + mutable),
                        "globals": sched.Points("globals"), "every": sched.Points("every")}
-        self.skip_names = set(self.points["shared"].written) | {COUNTER}
+        written = set(self.points["shared"].written)
+        self.late_names = {k for k in written if k not in self.import_names}
+        self.skip_names = written | set(self.pristine) | {COUNTER}
+        self.state_names = sorted(k for k in (written | set(self.pristine))
+                                  if not (k.startswith("_hy_") and isinstance(self.pristine.get(k), dict)))
+        self.reset()
         self.snap = sched.snapshot_globals(self.snap_dicts, self.skip_names)
 
     def _call_alone(self, a):
@@ -191,16 +227,27 @@ class Harness:
             pass
 
     def reset(self):
-        vars(self.mod)[COUNTER] = 0
+        md = vars(self.mod)
+        for k, v in self.pristine.items():
+            md[k] = v if isinstance(v, (int, float, str, bool, tuple, type(None))) else self._deepcopy(v)
+        for k in self.late_names:
+            md.pop(k, None)
+        for f, d in self.fn_attrs:
+            if f.__dict__ != d:
+                f.__dict__.clear()
+                f.__dict__.update(self._deepcopy(d))
 
     def bodies(self, T, c, a):
         fn = self.fn
+        SchedError = self.sched.SchedError
 
         def body():
             out = []
             for _ in range(c):
                 try:
                     out.append(("ok", fn(*a)))
+                except SchedError:
+                    raise
                 except Exception as e:
                     out.append(("exc", type(e).__name__, str(e)))
             return out
@@ -301,7 +348,9 @@ def judge(h, shard, ex):
 
 
 def _case(shard, ex):
-    return {"mode": shard["mode"], "T": shard["T"], "c": shard["c"], "arg": shard["arg"], "schedule": list(ex.choices)}
+    # 'preemptions' first: among equally long cases the runner lists the least-preempted schedule first
+    return {"preemptions": ex.preemptions, "mode": shard["mode"], "T": shard["T"], "c": shard["c"], "arg": shard["arg"],
+            "schedule": list(ex.choices)}
 
 
 def _report(acc, h, shard, ex):
